@@ -1,0 +1,15 @@
+""" Optional event tracing used by external verification tooling.
+
+Disabled unless the environment variable PRIVATE_PGM_VERIF=1 is set at import
+time *and* a sink list has been installed by the tool; otherwise every hook in
+the library reduces to one falsy test.
+"""
+import os
+
+ON = os.environ.get("PRIVATE_PGM_VERIF") == "1"
+sink = None
+
+
+def emit(kind, **fields):
+    if sink is not None:
+        sink.append((kind, fields))
